@@ -54,7 +54,7 @@ MANIFEST = dict(
 )
 
 IMPORTS = ['Coq.Lists.List', 'Coq.Bool.Bool', 'Coq.ZArith.ZArith', 'Coq.Strings.String', 'SV.SM.Store', 'SV.SM.StoreCert',
-           'SV.SM.StoreCopy', 'SV.SM.StoreCopySrc', 'SV.SM.StoreCopyExport', 'SV.SM.StoreCopyFlow', 'SV.SM.KvAdd', 'SV.SM.KvAddFresh',
+           'SV.SM.StoreCopy', 'SV.SM.StoreCopySrc', 'SV.SM.StoreCopyExport', 'SV.SM.StoreCopyFlow', 'SV.SM.StoreCopyWholeProofs', 'SV.SM.KvAdd', 'SV.SM.KvAddFresh',
            'SV.SM.OpPurity', 'SV.SM.CollapseCensus', 'SV.Gen.CopyCensus_gen', 'SV.Gen.CopyExportReads_gen',
            'SV.Gen.C09OpCensus_gen', 'SV.Gen.C09Collapse_gen', 'SV.Props.C09']
 CORPUS = hc.VERIF / 'corpus' / 'C09'
@@ -1002,6 +1002,8 @@ def run(ck: Ck) -> None:
         obs['all_sources_present'] = 'Nat.eqb (List.length all_sources) %d && all_sources_match' % len(side.get('classes', []))
         obs['all_flows_present'] = 'Nat.eqb (List.length all_flows) %d && all_args_lossless' % len(side.get('classes', []))
         obs['all_classes_present'] = 'Nat.eqb (List.length all_census) %d' % len(side.get('classes', []))
+        # premise of c09_all_classes_complete_and_independent (the whole property for every copy method of the table)
+        obs['all_classes_complete_and_independent'] = 'all_fresh && all_sources_match && all_export_ok'
         res = ck.instance_obligations(IMPORTS, obs)
         failing = [k for k, v in res.items() if not v]
         if failing:
@@ -1075,6 +1077,8 @@ def run(ck: Ck) -> None:
         ck.explain('instance:all_classes_export_ok')
     if any_key('shared-mutable:', 'mutation-visible:'):
         ck.explain('certificate:export_ok')
+    if any_key('shared-mutable:', 'mutation-visible:', 'copy-incomplete:'):
+        ck.explain('instance:all_classes_complete_and_independent')
     if any_key('instance-collapse-changes-template:', 'instance-'):
         ck.explain('instance:collapse_never_writes_template')
         ck.explain('instance:collapse_only_copies_enter_target')
